@@ -340,3 +340,124 @@ register(
     design_ref="5.17",
     technique="Lean 4 proof over definitions regenerated from the source + differential ledger run, exhaustive in payload size",
 )
+
+
+# ------------------------------------------------------------------------------------------ C14
+
+def gen_heter_script(rng, name, max_ops=35):
+    lines = ["--- %s" % name]
+    nk = rng.randint(1, 2)
+    issued = 0
+    owner = {}
+    for _ in range(rng.randint(6, max_ops)):
+        r = rng.random()
+        k = rng.randrange(nk)
+        if r < 0.22:
+            kind = rng.randrange(5)
+            lines.append("do hlisten %d %d %d" % (k, kind, kind * 100 + rng.randint(1, 9)))
+            owner[issued] = k
+            issued += 1
+        elif r < 0.28:
+            # a handle is only used with the event it was registered for (anything else is outside the property)
+            mine = [h for h, o in owner.items() if o == k]
+            lines.append("do hremove %d %d" % (k, rng.choice(mine) if mine and rng.random() < 0.85 else issued + rng.randint(0, 2)))
+        elif r < 0.40:
+            lines.append("do hdispatch %d %d %d" % (k, rng.randrange(6), rng.randint(0, 20)))
+        elif r < 0.70:
+            lines.append("do henqueue %d %d %d" % (k, rng.randrange(6), rng.randint(0, 20)))
+        elif r < 0.78:
+            lines.append("do hprocessone")
+        elif r < 0.86:
+            lines.append("do hprocess")
+        else:
+            m = rng.randint(1, 3)
+            lines.append("do hprocessif %d %d %d" % (rng.randrange(4), m, rng.randrange(m)))
+    lines.append("do hprocess")
+    return "\n".join(lines) + "\n"
+
+
+def heter_suite(ctx, search=False):
+    quick = ctx.quick()
+    jobs = [dict(src="seq_heter.cpp", out_name="seq_heter_o%d" % o, defines=["VH_ORDER=%d" % o]) for o in (0, 1)]
+    if not quick:
+        jobs.append(dict(src="seq_heter.cpp", out_name="seq_heter_o0_clang11", defines=["VH_ORDER=0"], cxx="clang++-14", std="c++11"))
+    builds = vlib.build_many(jobs)
+    ctx.rule = ("random histories on HeterEventQueue over 5 prototypes (void(), void(int), void(const std::string&), void(const Big&) with Big a 70+ byte non-trivial type, void(long) "
+                "overlapping with void(int)), two listing orders; callbacks / arguments / predicates of every kind incl. convertible ones (long, short -> first listed match); "
+                "queued events of different prototypes in recycled slots; processIf with predicates of every prototype; the library's own prototype selection is compared with "
+                "first-match over the CanInvoke matrix measured from the compiler; ASan/UBSan on; distinct = distinct canonical output; "
+                "non-trivial = a processIf over a queue holding events of at least two prototypes")
+    rng = random.Random("%d/C14" % ctx.seed)
+    n = (250 if quick else 6000) * (3 if search else 1)
+    import suiterun
+    scripts = [t for (_, t) in suiterun.load_corpus("C14")] + [gen_heter_script(rng, "C14_%d_%d" % (ctx.seed, i)) for i in range(n)]
+    for (ok, exe, log), job in zip(builds, jobs):
+        ctx.oblige("harness %s builds from /repo/include" % job["out_name"], ok, log[-1500:])
+        if not ok:
+            continue
+        rc, mat, e = vlib.sh([exe, "--matrix"], timeout=30)
+        B = 200
+        for off in range(0, len(scripts), B):
+            chunk = scripts[off:off + B]
+            text = "".join(chunk)
+            rc, out, err = vlib.run_harness(exe, text, timeout=300)
+            rcm, model, errm = vlib.run_driver("heter", mat + text)
+            crashed = rc != 0
+            for sc in chunk:
+                name = sc.splitlines()[0].split()[1]
+                ctx.cov["evaluations"] += 1
+                il = out.get(name)
+                why = None
+                if crashed and (il is None or name == list(out)[-1]):
+                    r1, o1, e1 = vlib.run_harness(exe, sc, timeout=60)
+                    il = o1.get(name)
+                    if r1 != 0:
+                        why = "implementation crashed (rc=%s): %s" % (r1, (e1 or "")[-700:])
+                ml = model.get(name)
+                if why is None:
+                    if il is None or ml is None:
+                        continue
+                    il2 = [l for l in il if not l.startswith("final-big")]
+                    ml2 = [l for l in ml if not l.startswith("final-big")]
+                    if il2 != ml2:
+                        d = next(i for i in range(max(len(il2), len(ml2))) if (il2[i] if i < len(il2) else None) != (ml2[i] if i < len(ml2) else None))
+                        why = "line %d implementation=%r model=%r" % (d, il2[d] if d < len(il2) else None, ml2[d] if d < len(ml2) else None)
+                if why:
+                    ctx.cov["failures"] += 1
+                    if ctx.cov["failures"] <= 3:
+                        def bad(sub):
+                            t = "--- x\n" + "\n".join(sub) + "\n"
+                            r2, o2, e2 = vlib.run_harness(exe, t, timeout=60)
+                            rm, m2, em = vlib.run_driver("heter", mat + t)
+                            a = [l for l in (o2.get("x") or []) if not l.startswith("final-big")]
+                            b = [l for l in (m2.get("x") or []) if not l.startswith("final-big")]
+                            return r2 != 0 or a != b
+                        body = sc.splitlines()[1:]
+                        small = vlib.ddmin(body, bad) if bad(body) else body
+                        ctx.fail("violation", why, "--- %s\n# %s ; hlisten K cbkind cb | henqueue K argkind v | hprocessif predkind m r\n%s\n" % (name, job["out_name"], "\n".join(small)),
+                                 job["out_name"])
+                    continue
+                ctx.cov["traces_validated"] += 1
+                tags = set()
+                for l in il:
+                    if l.startswith("q :"):
+                        tags |= set(x.split(":")[1] for x in l.split()[2:])
+                if "hprocessif" in sc and len(tags) >= 2:
+                    ctx.nontrivial_keys.add(hashlib.sha1(("\n".join(il)).encode()).hexdigest())
+                if len(ctx.samples) < 2 and len(il) > 30:
+                    ctx.samples.append({"suite": job["out_name"], "script": sc.splitlines(), "output_head": il[:14]})
+        for l in (model.get(list(model)[0]) if model else []):
+            if l.startswith("selection-mismatch"):
+                ctx.fail("violation", l, "", job["out_name"])
+
+
+register(
+    "C14",
+    lean_modules=["EventppVerif.Properties.C14"],
+    suites=[heter_suite],
+    level_text="Lean theorems on the heterogeneous model (first listed callable prototype is selected; an invocation/dispatch/enqueue reaches exactly the callbacks bound to that prototype; "
+               "queued events of all prototypes are consumed exactly once in FIFO order; processIf touches only events filed under prototypes its predicate is callable with and never reads a slot as another type) "
+               "+ correspondence of HeterEventQueue with the model on generated histories under ASan, with the callable matrix measured from the compiler.",
+    level_note="the C++ overload/convertibility rules are not modelled: the callable matrix is measured by the harness (CanInvoke) for a fixed universe of argument types; slot re-typing is C++ mechanics exercised with ASan",
+    design_ref="5.14",
+)
